@@ -32,6 +32,10 @@ func CallArgs(s *common.SrcFile, fn string, want map[string]int) ([][2]string, e
 		if !ok {
 			return true
 		}
+		if idx < 0 { // no argument of interest
+			out = append(out, [2]string{name, ""})
+			return true
+		}
 		if idx >= len(ce.Args) {
 			bad = fmt.Errorf("srcfacts: %s: call to %s has %d args, want arg %d", fn, name, len(ce.Args), idx)
 			return false
